@@ -30,7 +30,7 @@ ASSUMPTIONS = [
     "group-wise form is run with dataiter.USE_NUMBA = False (C08 compares the accelerated implementation with this one)",
 ]
 BOUND = {
-    "quick": "size ladder: periodic vectors / two-group frames of 17 and 130 elements; vector form: length 0..4 over 4-5 value alphabets per kind; group-wise: 1..3 rows x groups {1,2}^n x same alphabets; all drop_na in {default,True,False}, ddof {0,1}, index -3..3, q {0,.25,.5,1}; an infinities family (sum, mean, min, max, count, count_unique, first, last over {NA, 1, +inf, -inf}); the type of the missing value returned when nothing is left; array forms and provenances of the vector / group shards",
+    "quick": "size ladder: periodic vectors / two-group frames of 17 and 130 elements; vector form: length 0..4 over 4-5 value alphabets per kind; group-wise: 1..3 rows x groups {1,2}^n x same alphabets; all drop_na in {default,True,False}, ddof {0,1}, index -3..3, q {0,.25,.5,1}; an infinities family (sum, mean, min, max, count, count_unique, first, last over {NA, 1, +inf, -inf}); the type of the missing value returned when nothing is left (vector form: against a per-kind table, not Vector.na_value; group-wise: the result column stays of the input's sort for float, string, date, datetime and timedelta columns); array forms and provenances of the vector / group shards",
     "thorough": "vector form: length 0..5; group-wise: 1..4 rows x groups {1,2}^n; same argument menus; plus the additions listed for the quick tier",
 }
 TIME_CAP = {"quick": 300, "thorough": 3000}
@@ -150,6 +150,16 @@ def is_columns_missing_value(na, raw):
     return isinstance(raw, (float, np.floating)) and raw != raw
 
 
+# the missing value of a column by kind, stated independently of Vector.na_value (a change to that property must not move
+# the oracle with it; seeded C07-r12-1): NaN for numbers, NaT of the same sort for dates / datetimes / durations, '' for
+# strings, None for booleans and objects
+KIND_NA = {"f8": np.nan, "i8": np.nan, "u1": np.nan, "i4": np.nan, "b1": None, "obj": None, "str": "",
+           "D": np.datetime64("NaT"), "us": np.datetime64("NaT"), "td": np.timedelta64("NaT")}
+# kinds whose group-wise min/max/mode/first/last/nth result column must be of the same sort as the input column
+# (it can hold its own missing value): checked when a group is left without elements
+SAME_SORT = {"td": "is_timedelta", "D": "is_datetime", "us": "is_datetime", "str": "is_string", "f8": "is_float"}
+
+
 def ref_kwargs(kw):
     return {k: v for k, v in kw.items() if k != "drop_na"}
 
@@ -183,7 +193,7 @@ def check_case(case, rec):
             eff_drop = S.DEFAULT_DROP_NA[h] if kw.get("drop_na") is None else kw["drop_na"]
             left = [x for x in xs if x is not None] if eff_drop else xs
             if (exp == ("missing",) and not left and h in ("min", "max", "mode", "first", "last", "nth")
-                    and not is_columns_missing_value(v.na_value, raw)):
+                    and not is_columns_missing_value(KIND_NA[kind], raw)):
                 # nothing left to take the statistic of: "the column's missing value" - '' for strings, NaT for dates and
                 # durations, None for booleans and objects, NaN for numbers
                 rec.violation(h, "vector-missing-kind", one, f"got {raw!r} ({type(raw).__name__}) for {xs} {kw}: not the missing value of a {V.KINDS.get(kind, kind)} vector")
@@ -248,6 +258,13 @@ def check_case(case, rec):
             if bad:
                 rec.violation(h, "group-value", one, bad)
                 continue
+            if h in ("min", "max", "mode", "first", "last", "nth") and kind in SAME_SORT and not getattr(res[cname], SAME_SORT[kind])():
+                eff = S.DEFAULT_DROP_NA[h] if kw.get("drop_na") is None else kw["drop_na"]
+                if any(not ([x for x in members[g] if x is not None] if eff else members[g]) or
+                       S.reference(h, members[g], drop_na=kw.get("drop_na"), numeric_kind=numeric_kind(kind), **ref_kwargs(kw)) == ("missing",) for g in gids):
+                    rec.violation(h, "group-missing-kind", one, f"result column of dtype {res[cname].dtype} for a {V.KINDS.get(kind, kind)} column: "
+                                  f"a group without enough elements does not yield the column's missing value ({got!r})")
+                    continue
             rec.outcome((h, tuple(map(repr, got))))
         except Exception as e:
             rec.violation(h, "malformed-result", one, f"{type(e).__name__}: {e}")
